@@ -203,8 +203,22 @@ def check_corners(case):
 
 
 def gen_image(tier):
-    return st.fixed_dictionaries({"img": gens.image_specs(
+    small = st.fixed_dictionaries({"img": gens.image_specs(
         dims=(1, 2, 3), max_extent={1: 30, 2: 9, 3: 5}, dtypes=("float64",), max_nt=2, max_comp=2)})
+
+    @st.composite
+    def large(draw):
+        """Large extents with 'round' physical lengths: dimensions / (dimensions / n) is then often
+        n (1 - eps), the hazard for any integer conversion of a float quotient."""
+        dim = draw(st.sampled_from([1, 2, 3]))
+        mx = {1: 200, 2: 130, 3: 40}[dim]
+        shape = [draw(st.integers(1, mx)) for _ in range(dim)]
+        dims = [draw(st.sampled_from([1.0, 0.3, 1.2, 0.1, 1.5, 0.7, 2.0, 1e-4, 9.1])) for _ in range(dim)]
+        return {"img": {"dim": dim, "shape": shape, "dimensions": dims, "origin": None, "payload": "scalar",
+                        "ncomp": 0, "series": False, "nt": 0, "dtype": "bool", "time": "none", "t0": 0,
+                        "dt": 1, "pseed": 0, "name": None}, "large": True}
+
+    return st.one_of(small, large())
 
 
 def check_grid_from_image(case):
@@ -220,14 +234,20 @@ def check_grid_from_image(case):
         raise Violation("grid-voxel-size", f"{vs.tolist()} vs {want.tolist()}", t)
     if not np.array_equal(vs, np.asarray(img.voxel_size, float)):
         raise Violation("grid-voxel-size", "differs from image.voxel_size", t)
-    ref = RefGrid(spec["shape"], want)
-    if not np.array_equal(np.asarray(g.connectivity), ref.connectivity()):
-        raise Violation("grid-connectivity", "image-derived grid connectivity differs", t)
+    tot = int(np.prod(spec["shape"]))
+    if int(g.num_cells) != tot or int(g.num_faces) != sum(tot - tot // n for n in spec["shape"]):
+        raise Violation("grid-counts", f"{g.num_cells} cells / {g.num_faces} faces for image shape "
+                        f"{spec['shape']}", t)
+    if not case.get("large"):
+        ref = RefGrid(spec["shape"], want)
+        if not np.array_equal(np.asarray(g.connectivity), ref.connectivity()):
+            raise Violation("grid-connectivity", "image-derived grid connectivity differs", t)
     fv = np.asarray(g.face_vol, dtype=float)
     if not np.allclose(fv, [np.prod(np.delete(want, d)) for d in range(spec["dim"])], rtol=1e-14):
         raise Violation("grid-face-vol", f"{fv.tolist()}", t)
     return Outcome(_nt(spec["shape"]), [spec["shape"], spec["dimensions"]],
-                   (f"dim{spec['dim']}", "series" if spec["series"] else "single"))
+                   (f"dim{spec['dim']}", "series" if spec["series"] else "single",
+                    "large" if case.get("large") else "small"))
 
 
 _RULE = ("enumerate every grid shape with extents 1..12 (1-D), 1..7 (2-D), 1..5 (3-D) [quick] or "
@@ -248,6 +268,6 @@ PROP = Prop(
         Sub("interior_exterior_partition", check_partition, enum=enum_shapes, exhaustive=True, shards=_ONE),
         Sub("corner_indices_on_face", check_corners, enum=enum_shapes, exhaustive=True, shards=_ONE),
         Sub("grid_from_image", check_grid_from_image, gen=gen_image,
-            n={"quick": 400, "thorough": 6000}, shards={"quick": 2, "thorough": 8}),
+            n={"quick": 2400, "thorough": 40000}, shards={"quick": 6, "thorough": 16}),
     ],
 )
